@@ -363,7 +363,7 @@ func VH_C19_Num() {
 	} else {
 		i = []int{999, 1000, 1001, -999, -1000, -1001, 12345, -54321}[symChoice(8)]
 	}
-	out, err := vhR("{{ i|abs }}|{{ i|round }}|{{ i|number_format }}|{{ i|number_format(0, '.', ' ') }}", map[string]interface{}{"i": i})
+	out, err := vhR("{{ i|abs }}|{{ i|round }}|{{ i|number_format }}|{{ i|number_format(0, '.', ' ') }}|{{ i|number_format(d) }}|{{ i|number_format(2, ';') }}", map[string]interface{}{"i": i, "d": []int{-1, -3, 0}[symChoice(3)]})
 	symCover("rendered")
 	symAssert(err == nil, "no-error")
 	a := i
@@ -380,7 +380,8 @@ func VH_C19_Num() {
 		}
 		return s
 	}
-	symAssert(out == strconv.Itoa(a)+"|"+strconv.Itoa(i)+"|"+nf(",")+"|"+nf(" "), "abs-round-number_format")
+	// a negative number of decimals means none; two decimals of an integer are zeros
+	symAssert(out == strconv.Itoa(a)+"|"+strconv.Itoa(i)+"|"+nf(",")+"|"+nf(" ")+"|"+nf(",")+"|"+nf(",")+";00", "abs-round-number_format")
 }
 
 // VH_C19_RoundPrec: round with a precision and a method on integers from the context agrees with
